@@ -1,4 +1,4 @@
-import RlModel.Lemmas.StoreBoot
+import RlModel.Lemmas.StoreInv
 /-!
 # C03 — Acknowledged changes survive a clean shutdown and reopen
 
@@ -174,5 +174,64 @@ theorem stale_dv_hides_new_rows :
     (match run (.up Store.init) (staleIdWitness ++ [.insert "a" [[[.i32 5], [.i32 6]]]]) with
      | .up s => s.abs "a"
      | .dead _ => none) = some (tA, []) := by decide
+
+/-! ## Histories (the invariant behind `ReopenHyp`) -/
+
+/-- **Every guarded history reaches a state whose log replays to it** (`Inv`: the manifest replays
+to the live catalog / tables / row-sets / DVs, the files exist, ids are fresh), by induction over
+histories of CREATE/DROP TABLE, INSERT (any partition into row-sets), DELETE, compaction passes
+(any plan), vacuum passes and shutdown+reopen cycles in any order.  `GoodHist` evaluates `Guard` in
+the state each statement is issued in; its clauses are exactly the defect shapes: no view/index
+creation, no DROP of a table that still has delete vectors of compacted-away row-sets, no reopen
+while such a stale vector names a row-set id above every live one (and no NULL into NOT NULL). -/
+theorem history_reaches_invariant (h : List Op) (g : GoodHist Store.init h) :
+    ∃ s, run (.up Store.init) h = .up s ∧ Inv s :=
+  hist_inv h Store.init inv_init g
+
+/-- **reopen_refines** (history form): after any guarded history, shutting down and reopening
+succeeds, every table has the same definition and the same rows, and the reopened database
+satisfies the invariant again (so it accepts further statements, and any number of cycles). -/
+theorem reopen_refines (h : List Op) (g : GoodHist Store.init (h ++ [.reopen])) :
+    ∃ s s', run (.up Store.init) h = .up s ∧ s.reopen = .ok s' ∧ Inv s' ∧ ∀ n, s'.abs n = s.abs n := by
+  have hsplit : ∀ (a : List Op) (s0 : Store), GoodHist s0 (a ++ [.reopen]) →
+      GoodHist s0 a ∧ ∀ s1, run (.up s0) a = .up s1 → ReopenGuard s1 := by
+    intro a
+    induction a with
+    | nil => intro s0 g0; exact ⟨trivial, fun s1 h1 => by cases h1; exact g0.1⟩
+    | cons op ops ih =>
+      intro s0 g0
+      have g1 := g0.2
+      cases hs : (stepUp s0 op).1 with
+      | dead w =>
+        refine ⟨⟨g0.1, by rw [hs]; trivial⟩, ?_⟩
+        intro s1 h1
+        simp only [run, step, hs] at h1
+        have : ∀ (l : List Op), run (.dead w) l = .dead w := by
+          intro l; induction l with
+          | nil => rfl
+          | cons x xs ihx => simp [run, step, ihx]
+        rw [this] at h1; cases h1
+      | up s2 =>
+        rw [hs] at g1
+        obtain ⟨i1, i2⟩ := ih s2 g1
+        exact ⟨⟨g0.1, by rw [hs]; exact i1⟩, fun s1 h1 => i2 s1 (by simpa only [run, step, hs] using h1)⟩
+  obtain ⟨g1, g2⟩ := hsplit h Store.init g
+  obtain ⟨s, hs, inv⟩ := hist_inv h Store.init inv_init g1
+  obtain ⟨s', r1, r2, r3, _⟩ := reopen_inv s inv (g2 s hs)
+  exact ⟨s, s', hs, r1, r2, r3⟩
+
+/-- the reopened database accepts further (guarded) statements and keeps the invariant -/
+theorem reopen_accepts_ops (s : Store) (inv : Inv s) (h : List Op) (g : GoodHist s (.reopen :: h)) :
+    ∃ s', run (.up s) (.reopen :: h) = .up s' ∧ Inv s' :=
+  hist_inv (.reopen :: h) s inv g
+
+example : GoodHist Store.init ([.create tA, .insert "a" [[[.i32 1]], [[.i32 2]]], .compact [(0, [0, 1])],
+    .delete "a" (fun r => r == [.i32 1]), .reopen, .vacuum, .drop "a", .create tA, .insert "a" [[[.null]]]] ++ [.reopen]) := by
+  decide
+
+/-- the guards are not decoration: the refutation witnesses above are exactly the histories they reject -/
+example : ¬ GoodHist Store.init (staleDvWitness ++ [.reopen]) := by decide
+example : ¬ GoodHist Store.init (staleIdWitness ++ [.insert "a" [[[.i32 5]]]]) := by decide
+example : ¬ GoodHist Store.init (viewWitness ++ [.reopen]) := by decide
 
 end RlModel
